@@ -81,6 +81,24 @@ Fixpoint search_ge (l : list action) (start : Z) (i : nat) : nat :=
   | a :: l' => if abyte a >=? start then i else search_ge l' start (S i)
   end.
 
+(* sort.Search(n, f) itself (binary search):
+     i, j := 0, n; for i < j { h := (i+j)/2; if !f(h) { i = h + 1 } else { j = h } }; return i
+   [bsearch_ge] is GetNextActionFromByte's use of it; Proofs_Audit proves it equal to
+   [search_ge] on lists sorted by byte. *)
+Fixpoint bsearch (fuel : nat) (f : nat -> bool) (i j : nat) : nat :=
+  match fuel with
+  | O => i
+  | S fu => if Nat.ltb i j
+            then let h := Nat.div (i + j) 2 in
+                 if f h then bsearch fu f i h else bsearch fu f (S h) j
+            else i
+  end.
+
+Definition bsearch_ge (l : list action) (start : Z) : nat :=
+  bsearch (length l)
+          (fun h => match nth_error l h with Some a => abyte a >=? start | None => true end)
+          0 (length l).
+
 Definition next_from_byte (v : bool) (acts : list action) (start : Z) : option (nat * Z) :=
   next_from_index v acts (search_ge acts start 0).
 
@@ -690,6 +708,65 @@ Definition conn_default_cap (l : listener) (c : conn) : Z := l_up l.
    have happened, so n <= (drains + 1) * b. *)
 Definition ok_rate (b n elapsed_us tol_us : Z) : bool :=
   n <=? ((elapsed_us + tol_us) / (drain_interval_ms * 1000) + 1 + 1) * b.
+
+(* ---- throttle clause, deterministic part: which bandwidth has to be in force ---- *)
+
+(* the throttle (of the stored, sorted, disjoint list) that contains body offset o *)
+Fixpoint throttle_at (thr : list throttle) (o : Z) : option Z :=
+  match thr with
+  | [] => None
+  | t :: r => if (t_start t <=? o) && ((o <? t_end t) || (t_end t =? -1))
+              then Some (t_bw t) else throttle_at r o
+  end.
+
+(* a body chunk that starts at offset o inside a throttle interval must go through a
+   local bucket whose capacity is that throttle's bandwidth (otherwise the bucket
+   accounting cannot add the configured delay) *)
+Definition ok_chunk_bw (thr : list throttle) (o cap : Z) : bool :=
+  match throttle_at thr o with Some bw => cap =? bw | None => true end.
+
+(* bytes of the body range [rs, rs + n) that lie inside the throttle interval [a, b) (b = -1: open) *)
+Definition bytes_inside (a b rs n : Z) : Z :=
+  let lo := Z.max rs a in
+  let hi := if b =? -1 then rs + n else Z.min (rs + n) b in
+  Z.max 0 (hi - lo).
+
+(* ---- small decisions the driver makes, as functions with theorems ---- *)
+
+(* microseconds of Latency / Sleep that happen BEFORE the last delivered byte *)
+Fixpoint delays_acc (acc pending : Z) (evs : list ev) : Z :=
+  match evs with
+  | [] => acc
+  | Sleep d :: r => delays_acc acc (pending + 1000 * d) r
+  | Latency d :: r => delays_acc acc (pending + 1000 * d) r
+  | Emit (_ :: _) :: r => delays_acc (acc + pending) 0 r
+  | _ :: r => delays_acc acc pending r
+  end.
+
+Definition delays_before_last_byte (evs : list ev) : Z := delays_acc 0 0 evs.
+
+(* total-delay clause: the response took at least the delays that precede a delivered byte *)
+Definition ok_total_delay (evs : list ev) (elapsed_us : Z) : bool :=
+  delays_before_last_byte evs <=? elapsed_us.
+
+(* only-matching clause: an exchange that matches no shape arrives whole and is not cut *)
+Definition ok_unshaped (data delivered : bytes) (cut : bool) : bool :=
+  negb cut && bytes_eqb delivered data.
+
+(* validation clause on the handler's answer: 200 exactly for the configurations [validate] accepts;
+   [accepted_wrongly] is the property violation (an invalid configuration answered 200) *)
+Definition accepted_wrongly (c : option cfg) (code : Z) : bool :=
+  (code =? 200) && match c with Some c => match validate c with None => true | Some _ => false end | None => true end.
+
+(* later-connections clause: a validity probe on connection c after the history *)
+Definition ok_validity (l : listener) (c : conn) (k : list ascii) (observed_valid : bool) : bool :=
+  Bool.eqb observed_valid (conn_valid l c k).
+
+(* resources, integration layer: goroutines left over after the client went away *)
+Definition ok_no_leak (left : Z) : bool := left <=? 0.
+
+(* a single grant never exceeds the bandwidth *)
+Definition ok_grant (chunk bw : Z) : bool := chunk <=? bw.
 
 (* resources clause: live per-connection buckets after a listener history *)
 Definition ok_release (ops : list lop) (leaked : Z) : bool :=
